@@ -504,3 +504,600 @@ def sse_reference(raw):
             if value and all(c in "0123456789" for c in value):
                 retry = int(value)
     return events, last_id, retry
+
+
+# ---------------------------------------------------------------------------
+# independent wire-level reference parser (complete byte strings only)
+
+class WireError(Exception):
+    pass
+
+
+def ref_parse_one(data, kind="response", reqmethod="GET", eof=False):
+    """Parse one message from the front of ``data`` (bytes).  Returns
+    (message dict, number of bytes used) or None when the message is not
+    complete.  Raises WireError when the bytes cannot be a message or when the
+    message has no self-delimiting frame (read-until-close) and eof is False:
+    then it returns None too but sets nothing -- callers test 'framing'."""
+    end = data.find(b"\r\n\r\n")
+    if end < 0:
+        return None
+    lines = data[:end].split(b"\r\n")
+    start = lines[0].decode("latin-1")
+    headers = {}
+    for ln in lines[1:]:
+        name, colon, value = ln.decode("latin-1").partition(":")
+        if not colon or not name or name != name.strip():
+            raise WireError("bad header line %r" % ln)
+        headers[name.lower()] = value.strip(" \t")
+    pos = end + 4
+    m = {"start": start, "headers": headers}
+    if kind == "response":
+        parts = start.split(" ", 2)
+        if len(parts) < 2 or not parts[0].startswith("HTTP/1.") or not parts[1].isdigit():
+            raise WireError("bad status line %r" % start)
+        m["status"] = int(parts[1])
+        m["reason"] = parts[2] if len(parts) > 2 else ""
+        nobody = m["status"] in (204, 304) or 100 <= m["status"] < 200 or reqmethod == "HEAD"
+    else:
+        parts = start.split(" ")
+        if len(parts) != 3:
+            raise WireError("bad request line %r" % start)
+        m["method"], m["target"], m["version"] = parts
+        nobody = False
+    te = headers.get("transfer-encoding", "").lower()
+    if nobody:
+        m["framing"] = "nobody"
+        m["body"] = b""
+    elif te == "chunked":
+        m["framing"] = "chunked"
+        body = bytearray()
+        while True:
+            eol = data.find(b"\r\n", pos)
+            if eol < 0:
+                return None
+            sizetxt = data[pos:eol].split(b";")[0].strip()
+            try:
+                size = int(sizetxt, 16)
+            except ValueError:
+                raise WireError("bad chunk size %r" % data[pos:eol])
+            pos = eol + 2
+            if size == 0:
+                while True:           # trailers
+                    eol = data.find(b"\r\n", pos)
+                    if eol < 0:
+                        return None
+                    line = data[pos:eol]
+                    pos = eol + 2
+                    if not line:
+                        break
+                break
+            if len(data) < pos + size + 2:
+                return None
+            body += data[pos:pos + size]
+            if data[pos + size:pos + size + 2] != b"\r\n":
+                raise WireError("chunk not terminated by CRLF")
+            pos += size + 2
+        m["body"] = bytes(body)
+    elif "content-length" in headers:
+        m["framing"] = "length"
+        try:
+            n = int(headers["content-length"])
+        except ValueError:
+            raise WireError("bad content-length")
+        if len(data) < pos + n:
+            return None
+        m["body"] = data[pos:pos + n]
+        pos += n
+    elif kind == "request":
+        m["framing"] = "none"
+        m["body"] = b""
+    else:
+        m["framing"] = "close"
+        if not eof:
+            m["body"] = data[pos:]
+            m["undelimited"] = True
+            return m, len(data)
+        m["body"] = data[pos:]
+        pos = len(data)
+    return m, pos
+
+
+def ref_parse_stream(data, kind="response", reqmethods=None, eof=False):
+    """All complete messages at the front of data.  Returns (messages, rest)."""
+    out = []
+    data = bytes(data)
+    i = 0
+    while data:
+        meth = (reqmethods[i] if reqmethods and i < len(reqmethods) else "GET")
+        r = ref_parse_one(data, kind, meth, eof)
+        if r is None:
+            break
+        m, used = r
+        out.append(m)
+        data = data[used:]
+        i += 1
+        if m.get("undelimited"):
+            break
+    return out, data
+
+
+# ---------------------------------------------------------------------------
+# in-memory socket doubles (own minimal set; vf/iodoubles.py belongs to engine D)
+
+class Pipe(object):
+    """One direction of a connection: sender -> inflight -> readable."""
+
+    def __init__(self):
+        self.inflight = bytearray()
+        self.buf = bytearray()
+        self.closed = False        # sender has shut down / closed
+        self.total = bytearray()   # everything ever sent (wire record)
+
+    def deliver(self, k=None):
+        k = len(self.inflight) if k is None else min(k, len(self.inflight))
+        if k:
+            self.buf += self.inflight[:k]
+            del self.inflight[:k]
+        return k
+
+
+class PipeSock(object):
+    """Non-blocking stream socket double over two Pipes."""
+
+    def __init__(self, rx, tx, laddr, raddr, allow=None):
+        self.rx, self.tx = rx, tx
+        self.laddr, self.raddr = laddr, raddr
+        self.allow = allow            # callable(len) -> how many bytes this send() may take (0 = EAGAIN)
+        self.closed = False
+        self.sends = 0
+        self.partial = 0
+
+    def setblocking(self, flag):
+        pass
+
+    def setsockopt(self, *a):
+        pass
+
+    def getsockopt(self, *a):
+        return 1 << 20
+
+    def getsockname(self):
+        return self.laddr
+
+    def getpeername(self):
+        return self.raddr
+
+    def connect_ex(self, addr):
+        return 0
+
+    def fileno(self):
+        return -1
+
+    def recv(self, n):
+        if self.closed:
+            raise OSError(errno.EBADF, "closed double")
+        if self.rx.buf:
+            data = bytes(self.rx.buf[:n])
+            del self.rx.buf[:n]
+            return data
+        if self.rx.closed and not self.rx.inflight:
+            return b""
+        raise BlockingIOError(errno.EAGAIN, "would block")
+
+    def send(self, data):
+        if self.closed:
+            raise OSError(errno.EBADF, "closed double")
+        if self.tx.closed:
+            raise ConnectionResetError(errno.ECONNRESET, "peer gone")
+        self.sends += 1
+        k = len(data) if self.allow is None else min(len(data), self.allow(len(data)))
+        if k <= 0:
+            raise BlockingIOError(errno.EAGAIN, "would block")
+        if k < len(data):
+            self.partial += 1
+        self.tx.inflight += data[:k]
+        self.tx.total += data[:k]
+        return k
+
+    def shutdown(self, how):
+        if how in (socket.SHUT_WR, socket.SHUT_RDWR):
+            self.tx.closed = True
+
+    def close(self):
+        self.closed = True
+        self.tx.closed = True
+
+
+class FakeListener(object):
+    def __init__(self, addr):
+        self.addr = addr
+        self.pending = deque()
+
+    def accept(self):
+        if not self.pending:
+            raise BlockingIOError(errno.EAGAIN, "would block")
+        return self.pending.popleft()
+
+    def getsockname(self):
+        return self.addr
+
+    def setblocking(self, flag):
+        pass
+
+    def shutdown(self, how):
+        pass
+
+    def close(self):
+        pass
+
+
+class MemNet(object):
+    """A listening address plus any number of in-memory connections to it."""
+
+    def __init__(self, rng=None, port=18080, choppy=False):
+        self.rng = rng or random.Random(0)
+        self.addr = ("127.0.0.1", port)
+        self.listener = FakeListener(self.addr)
+        self.conns = []          # (client sock, server sock, c2s pipe, s2c pipe)
+        self.nextport = 40000
+        self.choppy = choppy     # partial sends and trickling delivery
+
+    def _allow(self, n):
+        r = self.rng.random()
+        if r < 0.15:
+            return 0
+        if r < 0.5:
+            return self.rng.randint(1, n)
+        return n
+
+    def connect(self):
+        self.nextport += 1
+        ca = ("127.0.0.1", self.nextport)
+        c2s, s2c = Pipe(), Pipe()
+        allow = self._allow if self.choppy else None
+        cs = PipeSock(rx=s2c, tx=c2s, laddr=ca, raddr=self.addr, allow=allow)
+        ss = PipeSock(rx=c2s, tx=s2c, laddr=self.addr, raddr=ca, allow=allow)
+        self.listener.pending.append((ss, ca))
+        self.conns.append((cs, ss, c2s, s2c))
+        return cs
+
+    def deliver(self):
+        """Move bytes in flight to the readable side (all of them, or a random
+        prefix when choppy).  Returns number of bytes moved."""
+        moved = 0
+        for cs, ss, c2s, s2c in self.conns:
+            for p in (c2s, s2c):
+                if p.inflight:
+                    if self.choppy:
+                        moved += p.deliver(self.rng.choice([0, 1, 2, 3, 7, 20, 100, None]))
+                    else:
+                        moved += p.deliver()
+        return moved
+
+    def idle(self):
+        return not any(p.inflight for c in self.conns for p in c[2:])
+
+
+def mem_server(net, store, timeout=None):
+    """A real tcp Server whose listen socket is the double (never bound)."""
+    from ioflo.aio.tcp import Server
+    srv = Server(ha=net.addr, store=store, timeout=timeout)
+    srv.ss = net.listener
+    srv.opened = True
+    return srv
+
+
+def mem_client(net, store, **kwa):
+    """A real tcp Client whose connection socket is the double."""
+    from ioflo.aio.tcp import Client
+    conn = Client(ha=net.addr, store=store, **kwa)
+    conn.cs = net.connect()
+    conn.opened = True
+    return conn
+
+
+def loop_server(store, timeout=None):
+    """A real tcp Server on an ephemeral loopback port, opened."""
+    from ioflo.aio.tcp import Server
+    srv = Server(ha=("127.0.0.1", 0), store=store, timeout=timeout)
+    if not srv.reopen():
+        raise RuntimeError("cannot open loopback server")
+    srv.eha = srv.ha          # eha was computed from port 0 before bind
+    return srv
+
+
+# ---------------------------------------------------------------------------
+# client request generator (inputs of Requester / Patron.request) -- C30
+
+URL_TOKEN = "abcdefghijklmnopqrstuvwxyzABCDEFGHIJKLMNOPQRSTUVWXYZ0123456789-._~"
+PATH_POOL = ["a", "b", "seg", "x1", "é", "日本", "ü-ber", " ", "a b", "%", "%41", "+", "&", "=", ";", ",", ":", "@", "!",
+             "$", "'", "(", ")", "*", "~", ".", "..", "\U0001F600", "\"", "<", ">", "[", "]", "{", "}", "|", "\\", "^", "`"]
+VALUE_POOL = ["a", "b", "1", "", " ", "&", "=", "+", "%", "%26", "a&b=c", "x=y", "é", "日本", "\U0001F600", "#", "?", "/", ";",
+              ":", "\"", "'", "<>", "a b", "  ", "\t", "\n", "\r\n", "100%", "c++", "k=v&k2=v2", "%%", "\\", "{}", "[]", "~", "|"]
+
+
+def arb_text(rng, pool=VALUE_POOL, lo=0, hi=4):
+    return "".join(rng.choice(pool) for _ in range(rng.randint(lo, hi)))
+
+
+def gen_path(rng):
+    segs = [arb_text(rng, PATH_POOL, 1, 3) for _ in range(rng.randint(0, 3))]
+    path = "/" + "/".join(segs)
+    if rng.random() < 0.15:
+        path += "/"
+    while path.startswith("//"):
+        path = path[1:]
+    return path
+
+
+def gen_json(rng, depth=0):
+    r = rng.random()
+    if depth > 2 or r < 0.35:
+        return rng.choice([None, True, False, 0, -1, 3.5, 10 ** 12, "", "a", arb_text(rng), "é ", "\U0001F600"])
+    if r < 0.65:
+        return [gen_json(rng, depth + 1) for _ in range(rng.randint(0, 3))]
+    return {arb_text(rng, lo=1) + str(i): gen_json(rng, depth + 1) for i in range(rng.randint(0, 3))}
+
+
+def gen_request(rng, rid, methods=METHODS):
+    """Inputs for Patron.request / Requester.  Returns dict; 'kind' says which
+    of body / data / fargs carries the payload."""
+    method = rng.choice(methods)
+    req = {"id": rid, "method": method, "path": gen_path(rng)}
+    qargs = []
+    seen = set()
+    for _ in range(rng.choice([0, 0, 1, 2, 3])):
+        k = token(rng, 1, 5, URL_TOKEN)
+        if k in seen:
+            continue
+        seen.add(k)
+        qargs.append((k, arb_text(rng)))
+    req["qargs"] = qargs
+    hdrs = [("X-Vf-Id", rid)]
+    seen = {"x-vf-id"}
+    for _ in range(rng.choice([0, 1, 2, 3])):
+        name = "X-" + token(rng, 1, 6, "abcdefghijklmnopqrstuvwxyzABCDEFGHIJKLMNOPQRSTUVWXYZ0123456789")
+        if name.lower() in seen:
+            continue
+        seen.add(name.lower())
+        v = header_value(rng) if rng.random() < 0.85 else rng.randint(0, 10 ** 6)
+        hdrs.append((name, v))
+    req["headers"] = hdrs
+    kind = "none" if method == "GET" else rng.choice(["none", "body", "body", "json", "json", "form", "form", "multipart"])
+    req["kind"] = kind
+    if kind == "body":
+        req["body"] = body_bytes(rng, 60) or b"\x00"
+    elif kind == "json":
+        req["data"] = (gen_json(rng) or {}) if rng.random() < 0.3 else {arb_text(rng, lo=1): gen_json(rng) for _ in range(rng.randint(0, 3))}
+    elif kind in ("form", "multipart"):
+        f, seen = [], set()
+        for _ in range(rng.randint(1, 3)):
+            k = token(rng, 1, 5, URL_TOKEN)
+            if k in seen:
+                continue
+            seen.add(k)
+            pool = VALUE_POOL if kind == "form" else [v for v in VALUE_POOL if "\r" not in v and "\n" not in v]
+            f.append((k, arb_text(rng, pool)))
+        req["fargs"] = f
+        if kind == "multipart":
+            req["headers"].append(("Content-Type", "multipart/form-data"))
+    return req
+
+
+def parse_multipart(body, ctype):
+    """Independent reading of the multipart body Requester.build writes."""
+    if "boundary=" not in ctype:
+        raise ValueError("no boundary in %r" % ctype)
+    boundary = ctype.split("boundary=", 1)[1]
+    text = body.decode("utf-8")
+    delim = "\r\n--" + boundary
+    parts = text.split(delim)
+    if parts[0] != "" or parts[-1] != "--":
+        raise ValueError("bad multipart framing")
+    out = []
+    for p in parts[1:-1]:
+        head, sep, value = p.partition("\r\n\r\n")
+        if not sep:
+            raise ValueError("part without blank line")
+        name = None
+        for ln in head.split("\r\n"):
+            if ln.lower().startswith("content-disposition:") and 'name="' in ln:
+                name = ln.split('name="', 1)[1].rsplit('"', 1)[0]
+        out.append((name, value))
+    return out
+
+
+# ---------------------------------------------------------------------------
+# WSGI application zoo
+
+APP_SHAPES = ("fixed", "fixed-pieces", "stream", "stream-gaps", "empty", "empty-cl0", "genreturn", "write",
+              "error-before", "error-lazy", "error-after")
+ERR_REASONS = {400: "Bad Request", 401: "Unauthorized", 403: "Forbidden", 404: "Not Found", 409: "Conflict",
+               500: "Internal Server Error", 503: "Service Unavailable"}
+
+
+def gen_appspec(rng, rid, shapes=APP_SHAPES, statuses=None, maxbody=60):
+    shape = rng.choice(shapes)
+    spec = {"shape": shape, "id": rid}
+    hdrs = [("X-Vf-Id", rid)]
+    seen = {"x-vf-id"}
+    for _ in range(rng.choice([0, 1, 2])):
+        name = "X-" + token(rng, 1, 6, "abcdefghijklmnopqrstuvwxyz0123456789")
+        if name.lower() in seen:
+            continue
+        seen.add(name.lower())
+        hdrs.append((name, header_value(rng)))
+    if rng.random() < 0.5:
+        hdrs.append(("Content-Type", rng.choice(["text/plain", "application/octet-stream", "text/html; charset=utf-8"])))
+    spec["headers"] = hdrs
+    body = body_bytes(rng, maxbody)
+    ncut = rng.randint(0, 3)
+    cuts = sorted(rng.sample(range(1, len(body)), min(ncut, len(body) - 1))) if len(body) > 1 else []
+    pieces = cut(body, cuts) if body else []
+    if shape.startswith("error"):
+        status = rng.choice(sorted(ERR_REASONS) + [418, 422, 599])
+        reason = ERR_REASONS.get(status) if rng.random() < 0.6 else rng.choice(["Nope", "Custom Reason", "Bad Thing Happened"])
+        if reason is None:
+            reason = "Odd"
+        explicit = not (status in ERR_REASONS and reason == ERR_REASONS[status] and rng.random() < 0.5)
+        spec.update(err_status=status, err_reason=reason, err_reason_explicit=explicit,
+                    err_title=rng.choice(["", "Validation Error", "té"]), err_detail=rng.choice(["", "Bad mojo", "x\ny"]),
+                    err_fault=rng.choice([None, 0, 50]),
+                    err_headers=[("X-Err", header_value(rng) or "e")] if rng.random() < 0.5 else [])
+    if shape in ("empty", "empty-cl0"):
+        body, pieces = b"", []
+    if shape == "error-after" and not pieces:
+        body, pieces = b"first", [b"first"]
+    if shape == "error-after":
+        pieces = pieces[:max(1, len(pieces) - 1)]      # what is written before the raise
+        body = b"".join(pieces)
+    tail = b""
+    if shape == "genreturn":
+        tail = body_bytes(rng, 10) or b"T"
+    status = rng.choice(statuses or sorted(REASONS))
+    reason = REASONS.get(status, "Status")
+    if rng.random() < 0.15:
+        reason = rng.choice(["Fine", "all good here", "Not-Quite (yet)"])
+    spec.update(status=status, reason=reason, pieces=pieces, tail=tail)
+    # ---- what the client must see
+    if shape in ("error-before", "error-lazy"):
+        rendered = "{} {}\n{}\n{}\n{}".format(spec["err_status"], spec["err_reason"], spec["err_title"], spec["err_detail"],
+                                              spec["err_fault"] if spec["err_fault"] is not None else "").encode("iso-8859-1")
+        exp_headers = dict((k.lower(), v) for k, v in spec["err_headers"])
+        exp_headers.setdefault("content-type", "text/plain")
+        exp_headers["content-length"] = str(len(rendered))
+        spec["expect"] = {"status": spec["err_status"], "reason": spec["err_reason"], "headers": exp_headers, "body": rendered}
+    else:
+        exp_headers = dict((k.lower(), v) for k, v in hdrs)
+        if shape in ("fixed", "fixed-pieces", "empty-cl0"):
+            exp_headers["content-length"] = str(len(body))
+        spec["expect"] = {"status": status, "reason": reason, "headers": exp_headers, "body": body + tail}
+    return spec
+
+
+def make_app(specfor, seen):
+    """WSGI callable.  ``specfor(environ)`` returns the appspec for the request;
+    every call appends a snapshot of the environ (wsgi.input read) to seen."""
+    def app(environ, start_response):
+        snap = dict((k, v) for k, v in environ.items() if k not in ("wsgi.input", "wsgi.errors"))
+        try:
+            snap["wsgi.input.read"] = environ["wsgi.input"].read()
+        except Exception as ex:                      # noqa
+            snap["wsgi.input.read"] = ex
+        seen.append(snap)
+        spec = specfor(environ)
+        snap["vf.spec.id"] = spec["id"]
+        shape = spec["shape"]
+        status = "%d %s" % (spec["status"], spec["reason"])
+        hdrs = list(spec["headers"])
+
+        def error():
+            from ioflo.aio.http import httping
+            kw = {}
+            if spec["err_reason_explicit"]:
+                kw["reason"] = spec["err_reason"]
+            return httping.HTTPError(spec["err_status"], title=spec["err_title"], detail=spec["err_detail"],
+                                     fault=spec["err_fault"], headers=dict(spec["err_headers"]), **kw)
+
+        if shape == "error-before":
+            raise error()
+        if shape in ("fixed", "fixed-pieces", "empty-cl0"):
+            hdrs.append(("Content-Length", str(sum(len(p) for p in spec["pieces"]))))
+            start_response(status, hdrs)
+            if shape == "fixed":
+                return [b"".join(spec["pieces"])]
+            return list(spec["pieces"])
+        if shape == "empty":
+            start_response(status, hdrs)
+            return []
+        if shape == "write":
+            write = start_response(status, hdrs)
+            for p in spec["pieces"]:
+                write(p)
+            return []
+
+        def gen():
+            if shape == "error-lazy":
+                start_response(status, hdrs)
+                yield b""
+                raise error()
+            start_response(status, hdrs)
+            for p in spec["pieces"]:
+                if shape == "stream-gaps":
+                    yield b""
+                yield p
+            if shape == "error-after":
+                raise error()
+            if shape == "genreturn":
+                return spec["tail"]
+        return gen()
+    return app
+
+
+# ---------------------------------------------------------------------------
+# Patron <-> Valet harness (in memory or loopback), virtual time
+
+class Pair(object):
+    """One Valet and any number of Patrons sharing a Store (virtual time)."""
+
+    def __init__(self, app, rng=None, mem=True, choppy=False, timeout=30.0):
+        from ioflo.base import storing
+        from ioflo.aio.http import serving
+        self.rng = rng or random.Random(0)
+        self.mem = mem
+        self.store = storing.Store(stamp=0.0)
+        self.net = MemNet(self.rng, choppy=choppy) if mem else None
+        self.servant = mem_server(self.net, self.store, timeout) if mem else loop_server(self.store, timeout)
+        self.valet = serving.Valet(servant=self.servant, app=app, store=self.store)
+        self.port = self.servant.ha[1]
+        self.patrons = []
+        self.rounds = 0
+
+    def patron(self, **kwa):
+        from ioflo.aio.http import clienting
+        from ioflo.aio.tcp import Client
+        if self.mem:
+            conn = mem_client(self.net, self.store)
+        else:
+            conn = Client(ha=("127.0.0.1", self.port), store=self.store)
+            conn.reopen()
+        p = clienting.Patron(connector=conn, store=self.store, hostname="127.0.0.1", port=self.port, **kwa)
+        self.patrons.append(p)
+        return p
+
+    def deliver(self):
+        if self.mem:
+            self.net.deliver()
+
+    def round(self):
+        """One fixed-order service round: every patron, then the valet."""
+        for p in self.patrons:
+            p.serviceAll()
+        self.deliver()
+        self.valet.serviceAll()
+        self.deliver()
+        self.store.advanceStamp(0.01)
+        self.rounds += 1
+
+    def pump(self, until, cap=300):
+        for i in range(cap):
+            if until():
+                return True
+            self.round()
+        return bool(until())
+
+    def close(self):
+        for p in self.patrons:
+            try:
+                p.connector.close()
+            except Exception:      # noqa
+                pass
+        try:
+            self.valet.close()
+        except Exception:          # noqa
+            pass
+        try:
+            self.servant.closeAll()
+        except Exception:          # noqa
+            pass
